@@ -66,6 +66,9 @@ def entry_points():
            lambda gp, p, x, y, xt, key: (lambda c: (c.loc, c.variance))(gp.condition(y, diag=p["d"] * jnp.ones(x.shape[0])).gp))
         mk(f"cond_train_alt_kernel[{vn}]", kern, nz, assume,
            lambda gp, p, x, y, xt, key: (lambda c: (c.loc, c.variance))(gp.condition(y, kernel=k_m32(p)).gp))
+        # the process object crosses a jit boundary (flattened / unflattened) before it is conditioned at its own inputs
+        mk(f"cond_train_through_jit[{vn}]", kern, nz, assume,
+           lambda gp, p, x, y, xt, key: jax.jit(lambda g, yy: (lambda c: (c.loc, c.variance))(g.condition(yy).gp))(gp, y))
         mk(f"sample[{vn}]", kern, nz, assume, lambda gp, p, x, y, xt, key: gp.sample(key, (2,)))
         mk(f"predict_new_mean[{vn}]", kern, nz, assume, lambda gp, p, x, y, xt, key: gp.predict(y, xt), uses_test=True)
     # gradient of the likelihood with respect to the hyper-parameters
